@@ -103,7 +103,12 @@ def build_harness(bins=None):
         for b in bins:
             cmd += ['--bin', b]
     rc, out, err = sh(cmd, cwd=HARNESS)
-    return rc == 0, (out + err)[-(6000 if rc == 0 else 60000):]
+    if rc == 0:
+        return True, (out + err)[-6000:]
+    # keep the error diagnostics (the warnings of a failed build would push them out of the retained tail)
+    blocks = re.split(r'\n(?=(?:error|warning)\b)', out + err)
+    errors = [b for b in blocks if b.startswith('error')]
+    return False, ('\n'.join(errors) if errors else out + err)[-60000:]
 
 def build_lean(targets):
     rc, out, err = sh(['lake', 'build'] + list(targets), cwd=LEAN)
